@@ -11,6 +11,8 @@ races on the unsynchronised cache fills, real scheduler fairness, runtime panics
 import Gkv.Proofs.Conc
 import Gkv.Props.Locks
 import Gkv.Props.C10
+import Gkv.Proofs.CopyRace
+import Gkv.Gen.WriteOrder
 open Std
 
 namespace Gkv.Props.C05
@@ -83,5 +85,29 @@ theorem pinned_alive (c idx : Nat)
     (run initV prog nColl nFlush rprogs sched).sh.underflow = false :=
   ⟨Gkv.Conc.pinned_alive initV prog nColl nFlush rprogs sched c idx hp,
    Gkv.Conc.no_underflow initV prog nColl nFlush rprogs sched⟩
+
+
+/-! ### the unsynchronised copy of an item slot (defect F16)
+
+`itemLoc.Copy` reads a slot's two fields in two steps while the flusher may publish the location
+and a reader may evict the cached item in between (`Model/CopyRace.lean`). -/
+
+/-- reading the item first and the location second gives a usable copy (an item or a location to
+    reload it from) for EVERY usable source and EVERY sequence of flushes, evictions and reloads
+    between the two reads -/
+theorem item_copy_never_empty (s : Gkv.CopyRace.Slot) (es : List Gkv.CopyRace.Ev) (h : s.ok = true) :
+    (Gkv.CopyRace.copyItemFirst s es).ok = true := Gkv.CopyRace.copyItemFirst_ok s es h
+
+/-- the pinned order (location first) yields a node with neither, on the schedule
+    dirty item · Flush · evict -/
+theorem item_copy_loc_first_breaks :
+    let s : Gkv.CopyRace.Slot := { loc := false, item := true }
+    s.ok = true ∧ (Gkv.CopyRace.copyLocFirst s [.flush, .evict]).ok = false :=
+  Gkv.CopyRace.copyLocFirst_broken
+
+/-- the code reads in the proved order (regenerated from /repo: position of the first `src.item`
+    before the first `src.loc` in `itemLoc.Copy`); the model's assumption that a location is never
+    un-published is `WriteOrder.locations_published_after_bytes` (no `setLoc(nil)`) -/
+theorem item_copy_reads_item_first : Gen.WriteOrder.copyReadsItemFirst = true := by decide
 
 end Gkv.Props.C05
